@@ -35,7 +35,7 @@ ASSUMPTIONS = ('the Disk class is a constructor argument, not a stored setting: 
 
 T = 64
 FANOUT_OPS = {'set', 'setitem', 'add', 'get', 'getitem', 'read', 'contains', 'touch', 'incr', 'decr', 'pop', 'delete',
-              'delitem', 'len', 'iter', 'reversed', 'expire', 'evict', 'clear', 'stats', 'cull', 'ADV'}
+              'delitem', 'len', 'iter', 'reversed', 'expire', 'evict', 'clear', 'stats', 'cull', 'ADV', 'FREEZE'}
 
 
 def plan(tier):
@@ -162,6 +162,11 @@ def cache_history(dc, sc, res, rng, kind, label):
             i += 1
             if op == 'ADV':
                 clock.advance(args[0])
+                continue
+            if op == 'FREEZE':
+                clock.frozen = args[0]
+                if not args[0]:
+                    clock.advance(gen.TICK)
                 continue
             drv.real = gen.pick(rng, handles)
             if rng.random() < 0.12:
